@@ -414,12 +414,29 @@ func (q *queryStmtParser) completeFieldExpr(ctx *grammar.FieldExprContext) {
 
 	if cur != nil {
 		expr, ok := cur.(stmt.Expr)
+		if ok && isIncompleteExpr(expr) {
+			// operand of paren/binary expr is missing(like duration or * in field expr: f+1m), it cannot be executed/serialized.
+			q.err = fmt.Errorf("invalid field expr, operand of expr is missing: %s", ctx.GetText())
+			return
+		}
 		if ok {
 			q.setExprParam(expr)
 		}
 		if q.exprStack.Empty() && !q.having {
 			q.selectItems = append(q.selectItems, &stmt.SelectItem{Expr: expr})
 		}
+	}
+}
+
+// isIncompleteExpr checks if the operand of paren/binary expr is missing.
+func isIncompleteExpr(expr stmt.Expr) bool {
+	switch e := expr.(type) {
+	case *stmt.ParenExpr:
+		return e.Expr == nil
+	case *stmt.BinaryExpr:
+		return e.Left == nil || e.Right == nil
+	default:
+		return false
 	}
 }
 
